@@ -130,7 +130,7 @@ impl Model {
                 }
             }
             Op::Freeze(c) => self.indexed && fd >= 1 && c == fd - 1,
-            Op::Enable => self.w <= self.h && self.any_sparse_one() && !self.any_sparse_either(),
+            Op::Enable => self.any_sparse_one() && !self.any_sparse_either(),
             Op::Disable => true,
             Op::Resize(nh, nw) => !self.indexed && nh >= 1 && nh <= self.h && nw >= 1 && nw <= self.w && (nw == self.w || self.w - nw >= self.nd) && !(nw == self.w && self.nd == 0 && false),
         }
@@ -1029,7 +1029,7 @@ fn enumerate(ctx: &Ctx, st: &Stats) {
     if !checked {
         let depth = if ctx.quick() { 3 } else { 4 };
         let mut seeds: Vec<(usize, usize, usize, &'static str, u8, usize)> = vec![];
-        let shapes: Vec<(usize, usize)> = if ctx.quick() { vec![(6, 6), (70, 66), (70, 70), (136, 134)] } else { vec![(6, 6), (8, 8), (70, 66), (70, 70), (130, 129), (136, 134), (200, 198)] };
+        let shapes: Vec<(usize, usize)> = if ctx.quick() { vec![(6, 6), (6, 9), (70, 66), (70, 70), (136, 134)] } else { vec![(6, 6), (6, 9), (8, 8), (12, 70), (70, 66), (70, 70), (130, 129), (136, 134), (200, 198)] };
         for &(h, w) in &shapes {
             // dense tails just below / at / above every word boundary the width allows (64, 128, 192), and an empty tail
             let tails: Vec<usize> = if w < 10 {
